@@ -9,6 +9,7 @@ import numpy as np
 
 from sim import refmodel as R
 from sim import seams
+from sim.steps import CLOCK
 
 PROP_INCONSISTENCY, PROP_CONSISTENCY, PROP_ENTAILMENT = 0, 1, 2
 PROBLEM_INCONSISTENT, PROBLEM_UNBOUND, PROBLEM_BOUND = 0, 1, 2
@@ -94,6 +95,7 @@ class EngineListener:
 
     # ------------------------------------------------------------------------------------------ compute_domains
     def around_compute(self, i, f, domains, parameters):
+        CLOCK.charge(10, "constraint execution")
         before = domains.copy()
         status = f(domains, parameters)
         after = domains
@@ -197,6 +199,7 @@ class EngineListener:
         top = int(top_arr[0])
         entry = stack[top].copy()
         self.c["bc"] += 1
+        CLOCK.charge(40, "solvers/bound_consistency_algorithm.py:bound_consistency_algorithm (pass)")
         self.pass_execs = 0
         self.orders = []
         S = int(sum(max(0, int(hi) - int(lo)) for lo, hi in entry))
